@@ -1,6 +1,6 @@
 (* C05 -- Every command-line item is used exactly once or the run fails.
    Property theorems only; proofs live in Lemmas/. *)
-From BpafLemmas Require Import Tac Find RunSub Reach Ledger NoLoss C05Lemmas.
+From BpafLemmas Require Import Tac Find RunSub Reach Ledger NoLoss C05Lemmas LoopLaws Exact TotalLaws TotalAll.
 
 (* A run yields a value only when no live item is left in the final scope. *)
 Theorem C05_ok_scope_consumed :
@@ -79,6 +79,21 @@ Check C05_run_inner :
     (forall i k, In (i, k) (log s') ->
        i < n /\ (k = KTok \/ (K k /\ forall a, nth_error (items s') i = Some a -> accepts k a = true))).
 Print Assumptions C05_run_inner.
+
+(* the counter behind `is_empty` / the leftover check / the repetition loops (`remaining`) is EXACTLY the
+   number of available items inside the scope: initially, and after the evaluation of every parser from
+   every well-formed state *)
+Theorem C05_remaining_counts_exactly :
+  forall env p s, G s ->
+  remaining (snd (eval env p s)) =
+  count_present (ist (snd (eval env p s))) (sc_start (snd (eval env p s))) (sc_end (snd (eval env p s))).
+Proof. intros env p s Hg. exact (proj2 (proj2 (proj1 (eval_keepsG env p s Hg)))). Qed.
+Print Assumptions C05_remaining_counts_exactly.
+
+Theorem C05_remaining_counts_exactly_initially :
+  forall sf sa name argv, G (fst (construct sf sa name argv)).
+Proof. exact construct_G. Qed.
+Print Assumptions C05_remaining_counts_exactly_initially.
 
 (* non-vacuity: a concrete parser and line on which the hypotheses hold and a value is produced *)
 Example C05_witness :
